@@ -124,10 +124,10 @@ func Run(cfg hx.Config) (*hx.Meta, error) {
 		types = cat.Shapes(r, 2, 300)
 		pool = 16
 	} else {
-		types = cat.Shapes(r, 1, 30)
+		types = cat.Shapes(r, 1, 20)
 		d2 := cat.Shapes(r, 2, 0)
 		hx.Shuffle(r, d2)
-		types = ga.Dedup(append(types, d2[:50]...))
+		types = ga.Dedup(append(types, d2[:40]...))
 	}
 	types = corpusFirst(cfg.Corpus, cat, r, types, meta)
 	for _, t := range types {
